@@ -19,9 +19,7 @@ RULE = ("Hypothesis-generated trees (depth 1..3, fan-out 1..3) of CopyStreamResu
         "StreamTagger, or tags supplied as set/frozenset to a tree containing a tagger, or a queue in the "
         "path; distinct = distinct canonical (tree, events).")
 ASSUMPTIONS = [
-    "only test_id and test_status are passed positionally when the tree contains a StreamTagger or "
-    "TimestampingStreamResult (they are documented through keyword use; status(*args, **kwargs) "
-    "wrappers cannot see positional fields); pure CopyStreamResult trees get up to 9 positional arguments",
+    "any prefix of the ten status() parameters may be passed positionally, through every kind of tree",
     "a delivered object that the caller supplied may be the caller's own object; what is forbidden is "
     "that its value changes (caller's object mutated, or a recorded object changing after delivery)",
 ]
@@ -63,11 +61,10 @@ def s_case(draw):
     tree = draw(TREE)
     if tree["t"] in ("sink", "failfast"):
         tree = {"t": "copy", "children": [tree, draw(NODE1)]}
-    restricted = _has(tree, ("tagger", "ts"))
     events = draw(EVENTS)
     calls = []
     for ev in events:
-        calls.append({"ev": ev, "npos": draw(st.integers(0, 2 if restricted else 9)),
+        calls.append({"ev": ev, "npos": draw(st.sampled_from([0, 0, 1, 2, 3, 5, 9, 10])),
                       "omit_defaults": draw(st.booleans()),
                       "reuse_set": draw(st.booleans())})       # the caller refills one scratch set instead of building a new one
     return {"tree": tree, "calls": calls, "bracket": draw(st.sampled_from(["run", "run", "none"])),
